@@ -217,7 +217,15 @@ Definition init_state (r : store) : state :=
   {| running := r; startup := r; sfile := None; sessions := []; lock := None; next_id := 0;
      vmem := []; vfiles := [] |}.
 
-Inductive variant := Repaired | Defective.
+(* which of the two recorded defects of the current code are repaired *)
+Record variant := {
+  v_persist_first : bool;   (* Commit writes the startup file before it swaps running (fixes/C13_persist_before_swap) *)
+  v_set_atomic : bool       (* a Set that fails in convertValue leaves the candidate untouched *)
+}.
+Definition Repaired : variant := {| v_persist_first := true; v_set_atomic := true |}.
+Definition Defective : variant := {| v_persist_first := false; v_set_atomic := false |}.      (* the code today *)
+Definition PersistDefect : variant := {| v_persist_first := false; v_set_atomic := true |}.
+Definition SetDefect : variant := {| v_persist_first := true; v_set_atomic := false |}.
 
 Record faults := { f_apply : nat; f_test : bool; f_reload : bool; f_startup : bool; f_version : bool }.
 Definition no_faults : faults :=
@@ -274,17 +282,17 @@ Definition old_value (s : store) (h : hspec) (p : path) : option (option sval) :
   if exists_in s h p then Some (get_leaf s p) else None.
 
 (* ---------- Set ---------- *)
-Definition set_store (s : store) (h : hspec) (p : path) (v : value) : store * bool :=
+Definition set_store (var : variant) (s : store) (h : hspec) (p : path) (v : value) : store * bool :=
   match h_kind h with
   | KInternal => (s, true)                     (* parts[0] == "_internal": nothing stored *)
   | k => let s1 := add_conts s p (h_conts h) in
          match convert k v with
          | Some o => (set_leaf s1 p o, true)
-         | None => (s1, false)                 (* containers were already created *)
+         | None => (if v_set_atomic var then s else s1, false)   (* today: containers were already created *)
          end
   end.
 
-Definition do_set (reg : registry) (st0 : state) (id : N) (p : path) (v : value) (vfail : bool)
+Definition do_set (var : variant) (reg : registry) (st0 : state) (id : N) (p : path) (v : value) (vfail : bool)
   : state * res :=
   let st := expire st0 in
   match find_session (sessions st) id with
@@ -297,7 +305,7 @@ Definition do_set (reg : registry) (st0 : state) (id : N) (p : path) (v : value)
     | Some hi =>
       let h := hget reg hi in
       if vfail then (st1, RInvalid) else
-      let '(cand', ok) := set_store (s_cand s) h p v in
+      let '(cand', ok) := set_store var (s_cand s) h p v in
       let s' := {| s_id := s_id s; s_cand := cand';
                    s_changes := if ok then s_changes s ++ [{| c_path := p; c_old := old_value (s_cand s) h p; c_new := v |}]
                                 else s_changes s;
@@ -499,8 +507,7 @@ Definition do_commit (var : variant) (reg : registry) (g : guard) (st0 : state) 
       let ver := {| v_num := N.of_nat (S (length (vmem st))); v_changes := lines |} in
       let closed := remove_session (sessions st) id in
       let lk := release (lock st) id in
-      match var with
-      | Defective =>
+      if negb (v_persist_first var) then
         (* conf.go today: swap first, then persist *)
         if f_startup f then
           ({| running := cand; startup := cand; sfile := sfile st;
@@ -520,7 +527,7 @@ Definition do_commit (var : variant) (reg : registry) (g : guard) (st0 : state) 
               ({| running := cand; startup := cand; sfile := Some cand; sessions := closed; lock := lk;
                   next_id := next_id st; vmem := vmem st ++ [ver]; vfiles := vfiles st ++ [ver] |}, ROk, evs1)
           end
-      | Repaired =>
+      else
         (* fixes/C13_persist_before_swap.patch: persist first; a failed startup write restores the
            routing daemon, rolls the handlers back and leaves every datastore alone; a failed version
            write is logged and does not fail the commit *)
@@ -535,7 +542,6 @@ Definition do_commit (var : variant) (reg : registry) (g : guard) (st0 : state) 
                 next_id := next_id st; vmem := vmem st ++ [ver];
                 vfiles := if f_version f then vfiles st else vfiles st ++ [ver] |}, ROk, evs1)
           end
-      end
     end
   end.
 
@@ -577,7 +583,7 @@ Definition step (var : variant) (reg : registry) (g : guard) (st : state) (o : o
   | OCreate => let '(s, r) := do_create st in (s, r, [])
   | OClose id => let '(s, r) := do_close st id in (s, r, [])
   | ODelete id => let '(s, r) := do_delete st id in (s, r, [])
-  | OSet id p v vf => let '(s, r) := do_set reg st id p v vf in (s, r, [])
+  | OSet id p v vf => let '(s, r) := do_set var reg st id p v vf in (s, r, [])
   | OTick d => (do_tick st d, ROk, [])
   | ORollback v => let '(s, r) := do_rollback st v in (s, r, [])
   | OCommit id f => do_commit var reg g st id f
